@@ -204,6 +204,8 @@ type Outcome struct {
 	StrErr  string
 	Bool    bool
 	BoolErr string
+	// NodeSetErr: error text of GetNodeSetResult ("" = it returned a node-set; "panic: ..." = it panicked)
+	NodeSetErr string
 	Panic   string
 	Stack   string
 }
@@ -279,6 +281,15 @@ func Run(m *xpath.Machine, t *Tree) (o Outcome) {
 		}
 	}); p != "" {
 		o.BoolErr = p
+	}
+	// the fourth accessor: node-set (a value or an error, like the others)
+	if p := read(func() {
+		_, err := res.GetNodeSetResult()
+		if err != nil {
+			o.NodeSetErr = err.Error()
+		}
+	}); p != "" {
+		o.NodeSetErr = p
 	}
 	return o
 }
